@@ -458,7 +458,9 @@ J gen_sessions(uint64_t seed, const J &ov)
 	cfg.set("keep_running", true);
 	if (!focus.empty()) cfg.set("focus", focus);
 	double T = 90 + r.uniform() * 150;
+	bool fsucc = ffrag && r.chance(0.35);          // fragsize focus with a slot changing hands: the new owner must not get answers cut for the old one
 	if (ffrag) T = 30 + r.uniform() * 60;
+	if (fsucc) T = 150 + r.uniform() * 40;
 	cfg.set("tmax_s", (int)T);
 	cfg.set("max_events", 3000000);
 	int cap = std::min(16, (int)std::min<int64_t>(1 << 20, ((int64_t)1 << (32 - bits)) - 3));
@@ -499,6 +501,7 @@ J gen_sessions(uint64_t seed, const J &ov)
 		if (r.chance(0.5)) m.set("fragsize", (int)r.range(20, 200));
 		m.set("lazy", r.chance(0.3));
 		if (!ffrag && r.chance(0.4)) m.set("auto_until_s", 5 + r.uniform() * (T - 70));   // goes silent -> expires after 60 s
+		if (fsucc && (i == 0 || r.chance(0.4))) { m.set("auto_until_s", 25 + r.uniform() * 40); m.set("start_us", (long long)((0.1 + r.uniform() * 5) * 1e6)); }
 		m.set("lat_up_us", (long long)r.pick_latency()); m.set("lat_dn_us", (long long)r.pick_latency());
 		if (r.chance(0.5)) { static const int ue[] = {6, 26, 7}; m.set("upenc", ue[r.range(0, 2)]); }
 		models.push(m);
@@ -509,7 +512,7 @@ J gen_sessions(uint64_t seed, const J &ov)
 	{
 		size_t nmod = models.a.size();
 		for (size_t i = 0; i < nmod && nsucc < 4; i++) {
-			if (!models.a[i].has("auto_until_s") || !r.chance(0.6)) continue;
+			if (!models.a[i].has("auto_until_s") || !r.chance(fsucc ? 0.95 : 0.6)) continue;
 			double stop = models.a[i].getd("auto_until_s");
 			if (stop + 80 > T) continue;
 			J m = J::obj();
@@ -517,6 +520,7 @@ J gen_sessions(uint64_t seed, const J &ov)
 			m.set("auto", true); m.set("start_us", (long long)((stop + 61 + r.uniform() * 14) * 1e6));
 			m.set("ping_period", 0.3 + r.uniform() * 2);
 			m.set("qtype", models.a[i].gets("qtype"));
+			if (r.chance(0.7)) m.set("replay_from", models.a[i].gets("name"));
 			if (r.chance(0.3)) { static const int ue[] = {6, 26, 7}; m.set("upenc", ue[r.range(0, 2)]); }
 			if (r.chance(0.3)) m.set("fragsize", (int)r.range(20, 200));
 			m.set("lat_up_us", (long long)r.pick_latency()); m.set("lat_dn_us", (long long)r.pick_latency());
@@ -549,6 +553,18 @@ J gen_sessions(uint64_t seed, const J &ov)
 		else if (k == 8) op.set("dst", "srv");
 		else { uint32_t a = (sip & ~hostmask) | (uint32_t)r.range(1, std::max<int64_t>(1, std::min<int64_t>(hostmask, 40))); char b[32]; snprintf(b, sizeof b, "%u.%u.%u.%u", a >> 24, (a >> 16) & 255, (a >> 8) & 255, a & 255); op.set("dst", b); }
 		ops.push(op);
+	}
+	if (fsucc) {
+		// downstream data right up to the moment a session falls silent, so that its last cached answers carry fragments
+		for (auto &m : models.a) if (m.has("auto_until_s") && m.gets("name")[0] == 'm') {
+			double stop = m.getd("auto_until_s");
+			int k = (int)r.range(2, 8);
+			for (int j = 0; j < k; j++) {
+				J op = J::obj(); op.set("ref", "abs"); op.set("t", (long long)((stop - 0.2 - r.uniform() * 6) * 1e6)); op.set("op", "tun"); op.set("at", "srv"); op.set("ser", (long long)++ser);
+				op.set("len", (int)(r.chance(0.5) ? r.range(300, 1500) : r.range(1500, 6000))); op.set("body", r.chance(0.7) ? "rnd" : "text"); op.set("src", "ext"); op.set("dst", m.gets("name"));
+				ops.push(op);
+			}
+		}
 	}
 	// upstream packets from model clients (to the server, outside, other clients)
 	int nup = (int)r.range(5, 40);
